@@ -6,6 +6,10 @@ ALL = ["C%02d" % i for i in range(1, 21)]
 
 CODEC_NOTE = "Trusted: the reflection bridge (identity-checked on every case), the schema universe and alphabets, the reference codecs, the Go toolchain. Schemas enter as the generator's intermediate JSON (the Java parser is absent). Small-scope bounds: depth <= 2 (3 on spines), <= 5 entries, strings <= 2 chars over the metacharacter set + tokens."
 CHECKS = {
+ "C10": dict(engine="enumx", category="model_checking", design="§3 C10",
+   technique="exhaustive pairwise comparison over enumerated value pools: generated Equals vs a reference structural equivalence, Equal => equal ComputeHash, hash purity across copies / map insertion orders / processes",
+   text="For every wrapper record of the universe the pool of all reduced-alphabet single-deviation values plus copies, map-insertion-order rebuilds, nil<->empty swaps and round-tripped copies is built; every ordered pair (thorough) / every pair involving an alphabet value (quick) is put to the real generated Equals and ComputeHash of both generations: Equals must coincide with the reference equivalence (so it is reflexive, symmetric, transitive on the pool and distinguishes every single-position difference), Equal values must hash alike, and hashes of a common sub-pool must agree across all 16 shard processes.",
+   note=CODEC_NOTE + " NaN-bearing pairs are checked for totality only."),
  "C03": dict(engine="enumx", category="model_checking", design="§3 C03, Appendix B",
    technique="bounded-exhaustive differential check of the real codecs against independent reference JSON/ROR2 codecs, both directions, incl. enumerated document variants",
    text="Over the C01 case space: every library encoding (5 formats) must parse under the strict reference parser for its format/escaping context and denote the same abstract value; the reference encoding of every value, and for the reduced alphabets every enumerated variant (all key permutations of <=4 keys, unknown fields of 6 shapes at 3 positions, whitespace, alternative JSON escapes, lower-case / superfluous percent-escapes, + for space), must be accepted by the library and yield the value.",
